@@ -1,5 +1,11 @@
 """Call graph of bronzebeard/asm.py with repo-specific resolution (partials, tables of callables, closures, methods by name)
-and an exception-escape analysis over it."""
+and an exception-escape analysis over it.
+
+The static resolution below follows names; calls through values (a function handed to a helper, an entry of a dispatch table,
+a closure returned by a factory, a decorator's wrapper, a context manager, a generator ...) are only seen when the call graph
+is created with ``dynamic=True``: the edges observed by the abstract interpretation of ``assemble()`` (bbverif/absint.py) are
+then added to ``callees()`` / ``call_sites()``.  C15 itself no longer uses this module (it reads the interpretation directly);
+``Escape`` is kept for reference only."""
 import ast
 
 from .core import AnalysisError
@@ -16,8 +22,10 @@ BUILTIN_BASES = {
 
 
 class CallGraph:
-    def __init__(self, facts):
+    def __init__(self, facts, dynamic=False):
         self.facts = facts
+        self.dynamic = dynamic
+        self._dyn = None
         self.funcs = {}          # qualified name -> FunctionDef
         self.parent = {}
         self.methods_by_name = {}
@@ -101,12 +109,31 @@ class CallGraph:
                         out.add(q)
         return sorted(out)
 
+    def dynamic_edges(self):
+        """{(caller, id(call node)): {callee}} observed by the abstract interpretation of assemble() ({} when it gives up)"""
+        if self._dyn is None:
+            self._dyn = {}
+            if self.dynamic:
+                try:
+                    from .absint import Interp
+                    from .props.c15 import entry_args
+                    it = Interp(self.facts.tree)
+                    it.run('assemble', entry_args)
+                    self._dyn = {k: {q for q in v if q in self.funcs} for k, v in it.call_edges.items()}
+                except AnalysisError:
+                    self._dyn = {}
+        return self._dyn
+
     def callees(self, qual, call):
         """Qualified names of repo functions a Call node may reach (memoised)."""
         key = (qual, id(call))
         memo = self.__dict__.setdefault('_memo', {})
         if key not in memo:
-            memo[key] = self._callees(qual, call)
+            found = list(self._callees(qual, call))
+            for q in sorted(self.dynamic_edges().get(key, ())):
+                if q not in found:
+                    found.append(q)
+            memo[key] = found
         return memo[key]
 
     def call_sites(self):
